@@ -115,6 +115,30 @@ def table_status(ctx, facts):
         ctx.ob("TABLE-status", vn[i], got == want, f"status of {vn[i]}: {sorted(got)} expected {sorted(want)}", site_of(b))
 
 
+def _rank_helper_model(facts, parent, vf, env, bb, t):
+    """call model for a local helper `fn rank(status) -> integer` (a match on the argument returning one constant per
+    variant): evaluated for the argument's variant, so that `rank(a) <= rank(b)` can be decided"""
+    fn = F.callee(t)[0] or ""
+    hb = facts.bodies.get(fn)
+    if hb is None or not fn.startswith(parent.path + "::") or len(t["args"]) != 1:
+        return NotImplemented
+    a = vf.operand(env, t["args"][0])
+    vs = vf.variants_at(env, a) if isinstance(a, frozenset) else None
+    if not vs or len(vs) != 1:
+        return NotImplemented
+    adt = next(iter(vf.syms[s_].adt for s_ in a))
+    h = V.VariantFlow(facts, hb)
+    henv = {"L": {}, "S": {}}
+    henv["L"][1] = h.new_sym(henv, "x", adt, list(vs))
+    h.run(henv)
+    vals = {val for bb_, val, e_ in h.return_values()}
+    if len(vals) == 1:
+        v = vals.pop()
+        if isinstance(v, tuple) and v[:1] == ("int",):
+            return v
+    return NotImplemented
+
+
 def table_min(ctx, facts):
     ctx.rule("TABLE-min: min_status(a,b) == the earlier of a,b in declaration order for all 25 pairs")
     b = facts.bodies.get("query::state::min_status")
@@ -123,7 +147,7 @@ def table_min(ctx, facts):
     sn = names(facts, QST)
     for i in range(len(sn)):
         for j in range(len(sn)):
-            vf = V.VariantFlow(facts, b)
+            vf = V.VariantFlow(facts, b, call_model=lambda vf_, env_, bb_, t_: _rank_helper_model(facts, b, vf_, env_, bb_, t_))
             env = {"L": {}, "S": {}}
             env["L"][1] = vf.new_sym(env, "a", QST, [i])
             env["L"][2] = vf.new_sym(env, "b", QST, [j])
@@ -227,9 +251,24 @@ def store_rules(ctx, facts):
                     notes.append("transition() result")
                 elif o == "agg":
                     to = env["S"].get(s, frozenset())
-                    fr = overwritten.get(s) or from_now
-                    good = bool(fr) and all(f < x for f in fr for x in to)
-                    notes.append("%s -> %s" % (sorted(vn[f] for f in fr), sorted(vn[x] for x in to)))
+                    fr = overwritten.get(s)
+                    if not fr:
+                        # what the removed value is known to be where this state was built (inside a match arm on it),
+                        # not at the insert after the arms have joined
+                        abb = sym.origin[1]
+                        aenv = vf.in_env.get(abb)
+                        fr = set()
+                        if aenv is not None:
+                            for k in removed_syms:
+                                fr |= set(aenv["S"].get(k, frozenset()))
+                        fr = fr or from_now
+                    # the same variant rebuilt around the payload taken out of the removed value (`Running(running)`) is an identity re-insert
+                    rebuilt = False
+                    if fr and set(fr) == set(to) and len(to) == 1 and sym.meta.get("ops"):
+                        src = " ".join(str(flow.expr_of(b, o_, max_depth=12)) for o_ in sym.meta["ops"])
+                        rebuilt = bool(re.search(r"HashMap::<K, V, S, A>::remove|OccupiedEntry", src))
+                    good = bool(fr) and (rebuilt or all(f < x for f in fr for x in to))
+                    notes.append("identity rebuild of the removed state" if rebuilt else "%s -> %s" % (sorted(vn[f] for f in fr), sorted(vn[x] for x in to)))
                     if not good:
                         ok = False
                 else:
@@ -270,8 +309,8 @@ def store_rules(ctx, facts):
             ctx.ob("STORE-remove", inst, not bad,
                    "every path re-inserts (or forgets on purpose)" if not bad else "a path from this removal reaches %s without re-inserting the state: an invalid request would drop the query" % ("an await" if b.term(bad[0])["k"] == "yield" else "return"),
                    site_of(b, bb))
-    ctx.floor("STORE-write", "insert sites on the query-state map", n_writes, 7)
-    ctx.floor("STORE-remove", "remove sites on the query-state map", n_removes, 5)
+    ctx.floor("STORE-write", "insert sites on the query-state map", n_writes, 4)
+    ctx.floor("STORE-remove", "remove sites on the query-state map", n_removes, 3)
 
 
 # ---------------------------------------------------------------------------------------------
